@@ -1,9 +1,66 @@
-(* C07 — theorems are added below as the proofs are completed; see DESIGN.md *)
+(* C07 — amplitude burst labels follow the dual-threshold rule.
+   Model: Model/Features.v, method Amp mask t n: `mask` is the sample-wise output of the external
+   dual-amplitude-threshold detector (an input of the model, computed by the harness with the
+   documented minimum-cycle count), t the burst_fraction_threshold, n the run filter's count. *)
 From Coq Require Import List Arith Bool ZArith Floats.PrimFloat.
 Import ListNotations.
-From ByC Require Import Base.Result Model.Cycles Model.Labels.
+From ByC Require Import Base.Result Base.ListAux Base.FloatBase Base.FloatFacts Model.Runs Model.Labels Model.Cycles Model.BurstFeat Model.Features
+  Proofs.Labels Proofs.LabelsOrder Proofs.BurstFeat Proofs.FeaturesSpec.
 
-Theorem C07_placeholder_period_is_next_minus_last : forall sigc amp r,
-  period (shape_of sigc amp r) = (s_next r - s_last r)%Z.
-Proof. reflexivity. Qed.
-Print Assumptions C07_placeholder_period_is_next_minus_last.
+(* burst_fraction of a cycle = fraction of detector samples that are True over [last side,
+   next side] INCLUSIVE; the label = (fraction >= threshold, run >= n) rule on those fractions *)
+Theorem C07_table_columns : forall c raw k b mask t n out,
+  compute_features c raw k b (Amp mask t n) = Ok out ->
+  exists tab lab,
+    shape_table c raw k b = Ok tab /\
+    labels_amp t n (map (burst_fraction_row mask) (map fst tab)) = Ok lab /\
+    length out = length tab /\
+    forall i, i < length tab ->
+      let r := nth i out frow0 in
+      r_s r = fst (nth i tab pair0) /\
+      r_shape r = snd (nth i tab pair0) /\
+      b_bf (r_burst r) = burst_fraction_row mask (fst (nth i tab pair0)) /\
+      b_af (r_burst r) = fnan /\ b_ac (r_burst r) = fnan /\
+      b_pc (r_burst r) = fnan /\ b_mo (r_burst r) = fnan /\
+      r_is_burst r = nth i lab false.
+Proof. exact compute_features_amp_spec. Qed.
+Print Assumptions C07_table_columns.
+
+Theorem C07_burst_fraction_window_is_inclusive : forall mask r,
+  burst_fraction_row mask r = frac_true (zslice mask (s_last r) (s_next r + 1)).
+Proof. exact burst_fraction_row_def. Qed.
+Print Assumptions C07_burst_fraction_window_is_inclusive.
+
+Theorem C07_burst_fraction_in_unit_interval : forall mask r,
+  (0 <= s_last r)%Z -> (s_last r <= s_next r)%Z ->
+  (s_next r < Z.of_nat (length mask))%Z -> (Z.of_nat (length mask) < 2 ^ 52)%Z ->
+  (0 <=? burst_fraction_row mask r)%float = true /\ (burst_fraction_row mask r <=? 1)%float = true.
+Proof. exact burst_fraction_row_range. Qed.
+Print Assumptions C07_burst_fraction_in_unit_interval.
+
+(* a cycle is labelled exactly when it lies in a run of >= n consecutive cycles whose burst
+   fraction reaches the threshold (stated on the returned columns) *)
+Theorem C07_label_iff_run_of_cycles_reaching_threshold : forall c raw k b mask t n out i,
+  compute_features c raw k b (Amp mask t n) = Ok out ->
+  (r_is_burst (nth i out frow0) = true <->
+   exists a e, a <= i < e /\ e <= length out /\ Z.to_nat n <= e - a /\
+     forall j, a <= j < e -> (t <=? b_bf (r_burst (nth j out frow0)))%float = true).
+Proof. exact compute_features_amp_label_iff_cols. Qed.
+Print Assumptions C07_label_iff_run_of_cycles_reaching_threshold.
+
+(* one and the same minimum-cycle count reaches the detector and the run filter: the burst
+   options' value if given, else the thresholds' value, else 3 *)
+Theorem C07_one_min_cycle_count : forall bk tk,
+  detector_min_n bk tk = filter_min_n bk tk /\
+  detector_min_n bk tk = match bk with Some b => b | None => match tk with Some t => t | None => 3%Z end end.
+Proof. exact min_n_consistent. Qed.
+Print Assumptions C07_one_min_cycle_count.
+
+(* raising burst_fraction_threshold on fixed inputs never adds a burst label (binary64) *)
+Theorem C07_raising_threshold_never_adds_a_label : forall c raw k b mask t t' n out out',
+  finite t = true -> finite t' = true -> PrimFloat.leb t t' = true ->
+  compute_features c raw k b (Amp mask t n) = Ok out ->
+  compute_features c raw k b (Amp mask t' n) = Ok out' ->
+  forall i, r_is_burst (nth i out' frow0) = true -> r_is_burst (nth i out frow0) = true.
+Proof. exact compute_features_amp_mono. Qed.
+Print Assumptions C07_raising_threshold_never_adds_a_label.
